@@ -170,23 +170,28 @@ CLAIMED = {
         'level': 'Decides, for every nesting depth and every depth of initial transition (loops are solved by widening, not unrolled), the buffer and '
                  'ordering side of the transition machinery: every store/append/load on the entry-path buffer is at the index the code believes '
                  '(zone-domain abstract interpretation of dispatch with trans_ inlined), entry loops enter slots j..0 once each and end exactly '
-                 'after the target, a found common ancestor is not re-entered, trans_ sends only SUPER/EXIT, parents are read from the cursor only '
-                 'when known, and dispatch leaves cursor == state. That branches (a)-(g) pick the *least* common ancestor for every (S,T) is NOT decided.',
+                 'after the target, a found common ancestor is not re-entered, trans_ sends only SUPER/EXIT, and dispatch leaves cursor == state. With ghost '
+                 'depths on both chains (ancestors of the target, ancestors of the current state) it also decides: slot k holds the k-th ancestor of the '
+                 'target whenever it is entered; every EXIT goes to the next state of the active chain (none skipped/repeated/foreign); where trans_ '
+                 'returns, exits stopped and entries start at one and the same tested common state (parents for a self transition); no raise statement '
+                 'is reachable by a protocol-following chart. That the tested common state is the *innermost* one for every (S,T) is NOT decided.',
         'note': 'Trusted base: handler protocol H1-H4 (evidence lists it); the thorough tier\'s census checks the repository\'s own handlers against it. '
                 'Functional correctness of the LCA search over a runtime tree is outside this family.',
-        'technique': SA + 'relational abstract interpretation (difference-bound matrices, flag-partitioned, delayed widening) + CFG path/guard rules over the 19 handler-call sites',
+        'technique': SA + 'relational abstract interpretation (difference-bound matrices, flag-partitioned, delayed widening) with ghost variables for buffer content, chain depths, exit count and common-ancestor witness + CFG path/guard rules over the 19 handler-call sites',
     },
     'C02': {
         'level': 'Decides for every chart that the processor itself bubbles an event outward one level at a time (one offer per level to the cursor '
                  'state, EMPTY re-ask exactly on UNHANDLED with its answer steering, exit exactly on not-SUPER) and runs no action and changes no '
-                 'state unless a handler answered TRAN; top is effect-free and constant; every cursor-moving method restores cursor == state.',
+                 'state unless a handler answered TRAN; top is effect-free and constant; every cursor-moving method restores cursor == state; and (ghost depth '
+                 'on the active chain, any nesting depth) the n-th offer goes to the ancestor of the current state at depth n, the guard fallback to the state that declined.',
         'note': 'What a user handler returns is runtime and not decided. H1-H4 assumed.',
-        'technique': SA + 'loop-shape and guard-polarity analysis on the CFG of dispatch, reaching definitions of the offered-to state, effect set of top, post-dominance (I1)',
+        'technique': SA + 'loop-shape and guard-polarity analysis on the CFG of dispatch, reaching definitions of the offered-to state, effect set of top, post-dominance (I1), zone-domain ghost depth of the offered-to state',
     },
     'C03': {
         'level': 'Decides for every depth that init() keeps its path buffer consistent (zone-domain proof of all index obligations), enters slots '
                  'index-1..0 once each ending at the target, sends only SUPER/ENTRY/INIT (nothing is exited), that start_at wires state/top/cursor '
-                 'before init() and leaves cursor == state == last init target.',
+                 'before init() and leaves cursor == state == last init target; slot k holds the k-th ancestor of the init target when entered, and no raise '
+                 'statement of init() is reachable by a protocol-following chart (start state below top, init targets inside the state that takes them).',
         'note': 'As C01: LCA-style functional correctness is not decided; H1-H4 assumed.',
         'technique': SA + 'zone-domain abstract interpretation of init + entry-loop, signal-set and must-precede rules',
     },
